@@ -408,6 +408,12 @@ def producer_keys(prog, fi, task, depth=0):
                 if k is not None:
                     keys |= k
                     found = True
+            for r in walk_no_nested(g.node):
+                if isinstance(r, ast.Return) and r.value is not None and not ys:
+                    k, _ = producer_keys(prog, g, r.value, depth + 1)
+                    if k is not None:
+                        keys |= k
+                        found = True
             # **kwargs copied into the dict:  for ky in kwargs: d[ky] = kwargs[ky]
             if g.node.args.kwarg is not None:
                 kwn = g.node.args.kwarg.arg
